@@ -12,7 +12,9 @@ from elexmodel.handlers.data.Featurizer import Featurizer
 from elexmodel.logger import getModelLogger
 from elexmodel.models import BaseElectionModel
 
-warnings.filterwarnings("error", category=UserWarning, module="cvxpy")
+# cvxpy attributes its warnings to the first frame outside of the cvxpy package (the solver module that called it),
+# so the filter has to recognise the warning by its message, not by the module it seems to come from
+warnings.filterwarnings("error", message="Solution may be inaccurate", category=UserWarning)
 
 PredictionIntervals = namedtuple("PredictionIntervals", ["lower", "upper", "conformalization"], defaults=(None,) * 3)
 
